@@ -26,8 +26,12 @@ VH_DRIVER(escape){
   for(int c=1;c<=255;++c){ in.push_back(Text{c}); in.push_back(Text{13,c}); in.push_back(Text{c,10}); in.push_back(Text{'%',c}); in.push_back(Text{'%','4',c}); in.push_back(Text{'%',c,'1'}); in.push_back(Text{'a',c,'%','4','1',c}); in.push_back(T("%41")+Text{'%','0',c}); in.push_back(T("%20%")+Text{c,'g'}); }
   for(const char*s:{"%0D%0A","%0d%0a","%0D%0D%0A%0A","%0A%0D","%41%0g","%20%0g","%41%4","%41%","%%41","%4%41","+%2B+","%00a","a%00","%0D\n","\r%0A","\r\n","%e4%F6%fC"}) in.push_back(T(s));
   for(int i=0;i<(g.thorough?20000:1500);++i){ Text t; int n=R.below(60); for(int j=0;j<n;++j){ int k=R.below(10); if(k<3) t.push_back(1+R.below(255)); else if(k<5){ t.push_back('%'); if(R.below(4)) t.push_back("0123456789abcdefABCDEFgG%"[R.below(25)]); if(R.below(3)) t.push_back("0123456789abcdefABCDEF"[R.below(22)]); } else t.push_back(reps[R.below((int)reps.size())]); } in.push_back(t); }
-  long per=8+16; size_t total=in.size()*per; double keep= total>(size_t)want? (double)want/total:1.0; long k=0;
-  for(auto&t:in){ bool narrow=true; for(int c:t) if(c>255) narrow=false;
+  // the line-break state (CR, LF, CR LF, with spaces / ordinary characters in between) is covered systematically and never subsampled:
+  // all strings up to length 4 (thorough 5) over {CR, LF, space, 'a'} come first and are always kept
+  std::vector<Text> must; { std::vector<int> br={13,10,32,'a'}; int ML=g.thorough?5:4; for(int len=1;len<=ML;++len){ std::vector<int> ix(len,0); while(true){ Text t; for(int i=0;i<len;++i) t.push_back(br[ix[i]]); must.push_back(t); int i=len-1; while(i>=0&&++ix[i]==(int)br.size()){ ix[i]=0; --i; } if(i<0) break; } } }
+  size_t nmust=must.size(); in.insert(in.begin(),must.begin(),must.end());
+  long per=8+16; size_t total=in.size()*per; double keep= total>(size_t)want? (double)want/total:1.0; long k=0; size_t idx=0;
+  for(auto&t:in){ bool narrow=true; for(int c:t) if(c>255) narrow=false; double keep_save=keep; if(idx++<nmust) keep=1.0; struct Restore{ double&k; double v; ~Restore(){ k=v; } } restore{keep,keep_save};
     for(int sp=0;sp<2;++sp) for(int nb=0;nb<2;++nb) for(int ex=0;ex<2;++ex){ ++k; if(keep<1.0 && (R.next()%1000000)>=keep*1000000) continue; AW(narrow,k%2,[&]{ escape_event<ApiA>(a1,a2,t,ex,sp,nb); },[&]{ escape_event<ApiW>(a1,a2,t,ex,sp,nb); }); }
     for(int ps=0;ps<2;++ps) for(int conv=0;conv<4;++conv) for(int wd=0;wd<2;++wd){ ++k; if(keep<1.0 && (R.next()%1000000)>=keep*1000000) continue; bool plain=(ps==0&&conv==3&&wd==0&&(k%4==0)); if(g.pair){ if(wd==0) AW(narrow,true,[&]{ unescape_event<ApiA>(a3,t,ps,conv,plain); },[&]{ unescape_event<ApiW>(a3,t,ps,conv,plain); }); } else if(wd==0) unescape_event<ApiA>(a3,t,ps,conv,plain); else unescape_event<ApiW>(a3,t,ps,conv,plain); }
     g.count(jtext(t),!t.empty()); if(k%20011<24) g.sample(J().str("in",show(t)).done()); }
